@@ -2955,7 +2955,17 @@ class BaseInterpreter(Generic[TContext, TEvent]):
         Returns:
             bool: `True` when the named state is active.
         """
-        params = self._resolve_params(guard.params, event)
+        # 🛡️ Computed params are user code: a raise counts as "guard false",
+        #    exactly like a raising guard implementation or its params.
+        try:
+            params = self._resolve_params(guard.params, event)
+        except Exception:
+            logger.exception(
+                "🔥 Params of built-in guard 'stateIn' raised while handling "
+                "'%s'; treating the guard as false.",
+                event.type,
+            )
+            return False
         target = None
         if isinstance(params, dict):
             target = params.get("state", params.get("value"))
